@@ -20,6 +20,7 @@ EXPLANATION = (
     "exit. Decides these structural necessary conditions, not tree equality after failure."
 )
 EXPLANATION += " R10.14: inside a rollback handler the inverse operation is taken of the completed sub-changes only (elements of the compensation loop), never of the failing one."
+EXPLANATION += " R10.15: every use of a process exit status in rope.base.fscommands decides between returning and raising.  R10.16: in the back ends that run a program, remove can take back what the creation commands made (plain removal for unregistered paths; for git the options of `rm` from a hand-confirmed table)."
 ASSUMPTIONS = [
     "fault model: only statements containing a call/raise/assert may raise",
     "atomicity of a single fscommands primitive is outside the model",
@@ -284,6 +285,8 @@ def check(ctx, res) -> None:
 
 
     common.order_only_restore_rule(ctx, res, "R10.13")
+    _subprocess_status_rule(ctx, res)
+    _vcs_remove_takes_back_creation_rule(ctx, res)
 
 
 def _check_main(ctx, res) -> None:
@@ -596,3 +599,130 @@ def _check_main(ctx, res) -> None:
 
     # ---- R10.10 (=R09.9) the analysis callback inside every write lets nothing escape after the effect
     common.soa_observer_rule(ctx, res, "R10.10")
+
+
+# ---------------------------------------------------------------------------------------------------------------------------------
+# R10.15 / R10.16 the file-system commands that run a subprocess
+
+def _subprocess_status_rule(ctx, res) -> None:
+    """R10.15: the rollback of a composite change counts a sub-change as done when its file-system command RETURNED and as failed when it
+    RAISED.  The commands of the version-control back ends that run a program (`git`, `darcs`) learn of a failure only from the exit
+    status: a status that is dropped turns "git refused" into "done", and the rollback (or the change itself) goes on over a tree that is
+    not what it believes.  So: every call of a function of rope.base.fscommands that returns a process's exit status has its value tested,
+    with a raise on the failing side -- in the caller, or the function raises itself (`check_call`, `run(check=True)`, an own test)."""
+    idx = ctx.idx
+    mod = "rope.base.fscommands"
+    fns = [f for f in idx.functions.values() if f.unit.modname == mod]
+
+    def returns_status(fn) -> bool:
+        """returns `<process>.returncode` / `.wait()` / `subprocess.call(...)`: the caller has to look at it"""
+        for r in walk_local(fn.node):
+            if isinstance(r, ast.Return) and r.value is not None:
+                v = r.value
+                if isinstance(v, ast.Attribute) and v.attr == "returncode":
+                    return True
+                if isinstance(v, ast.Call) and call_name(v) in ("wait", "call", "poll"):
+                    return True
+        return False
+
+    def raises_on_failure(fn) -> bool:
+        """the function tests the status itself and raises (or lets subprocess do it)"""
+        for c in calls_in(fn.node):
+            if call_name(c) in ("check_call", "check_output"):
+                return True
+            if call_name(c) == "run" and any(k.arg == "check" and isinstance(k.value, ast.Constant) and k.value.value is True for k in c.keywords):
+                return True
+        return False
+
+    status_fns = {f.name: f for f in fns if f.cls is None and returns_status(f) and not raises_on_failure(f)}
+    runners = {f.name for f in fns if f.cls is None and any(call_name(c) in ("Popen", "call", "run", "check_call", "check_output") for c in calls_in(f.node))}
+    if not runners:
+        raise AnalysisError("anchor=rope.base.fscommands: no function that runs a subprocess found")
+    n = 0
+    for f in sorted(fns, key=lambda f: f.qualname):
+        for c in calls_in(f.node):
+            if not (isinstance(c.func, ast.Name) and c.func.id in status_fns):
+                continue
+            n += 1
+            cfg = CFG(f.node)
+            nodes = cfg.node_containing(c)
+            ok = False
+            why = "the exit status is dropped (the call is a statement of its own)"
+            # the status is bound to a local or tested in place; some raise stands under a test that reads it
+            names = set()
+            for nd in nodes:
+                if nd.kind in ("stmt", "cond") and isinstance(nd.ast, ast.Assign):
+                    names |= {t.id for t in nd.ast.targets if isinstance(t, ast.Name)}
+                if nd.kind == "stmt" and isinstance(nd.ast, ast.Return):
+                    ok = True  # handed on: the caller of THIS function is looked at in its turn (it then is a status function itself)
+            for r in cfg.nodes:
+                if r.kind == "stmt" and isinstance(r.ast, ast.Raise):
+                    for t, _pol in cfg.guards(r.id):
+                        if any(x is c for x in ast.walk(t)) or any(isinstance(x, ast.Name) and x.id in names for x in ast.walk(t)):
+                            ok = True
+            if names and not ok:
+                why = f"the exit status is bound to `{sorted(names)[0]}` but no raise depends on it"
+            res.add("R10.15", f"{f.qualname.split('.', 3)[-1]}|exit-status-of-{c.func.id}#{n}", ok, f"{f.unit.rel}:{c.lineno}",
+                    "the exit status decides between returning and raising" if ok else
+                    f"{f.qualname.split('.', 3)[-1]}: {why}.  A refused command (`git rm` of a file that is only staged, `git mv` of an untracked file) "
+                    "returns like a command that had its effect: the composite change, and its rollback, count it as done and leave the tree "
+                    "half-changed without reporting anything", function=f.qualname)
+    # a status function that nobody calls with a test is fine; one that is gone (the runners raise themselves) leaves nothing to check --
+    # then every runner must raise on failure
+    if not status_fns:
+        for name in sorted(runners):
+            f = next(x for x in fns if x.cls is None and x.name == name)
+            n += 1
+            ok = raises_on_failure(f) or any(isinstance(r, ast.Raise) for r in walk_local(f.node))
+            res.add("R10.15", f"{name}|raises-on-failure#{n}", ok, f.where,
+                    "the runner raises when the program fails" if ok else f"{name} runs a program and neither returns nor tests its exit status", function=f.qualname)
+    res.floor("R10.15", "uses of a process exit status", n, 1)
+
+
+# what `git rm` needs in order to take back what rope's own creation commands made (confirmed by reading git-rm(1) and on a scratch
+# repository): a file created by create_file is `git add`ed -- staged, not in HEAD -- and `git rm` without -f refuses it ("has changes
+# staged in the index"); a folder is removed only with -r.
+_GIT_RM_NEEDS = (({"-f", "--force"}, "a file that create_file has just staged is refused without it"),
+                 ({"-r"}, "a folder is not removed without it"))
+
+
+def _vcs_remove_takes_back_creation_rule(ctx, res) -> None:
+    """R10.16: the rollback of CreateFolder / CreateFile is `remove`.  In a command class that runs a program, what `create_*` made must be
+    something `remove` can take away: (a) when a creation command does NOT register the path with the version-control program (plain
+    mkdir), `remove` has a path on which the plain removal runs (the program does not know the path: "pathspec did not match"); (b) for
+    git, the `rm` argument list carries the options without which git refuses what rope itself has just created (table _GIT_RM_NEEDS)."""
+    idx = ctx.idx
+    n = 0
+    for cls in sorted(idx.classes.values(), key=lambda c: c.qualname):
+        if cls.unit.modname != "rope.base.fscommands":
+            continue
+        do = cls.methods.get("_do")
+        if do is None or not any(isinstance(c.func, ast.Name) for c in calls_in(do.node)):
+            continue  # not a class that runs a program
+        rm = cls.methods.get("remove")
+        if rm is None:
+            continue
+        def registers(m) -> bool:
+            return any(is_self_attr(c.func, "_do") for c in calls_in(m.node))
+        def plain(m, what) -> bool:
+            return any(isinstance(c.func, ast.Attribute) and c.func.attr == what and is_self_attr(c.func.value, "normal_actions") for c in calls_in(m.node))
+        unregistered = [k for k in ("create_file", "create_folder") if k in cls.methods and not registers(cls.methods[k])]
+        n += 1
+        ok = not unregistered or plain(rm, "remove")
+        res.add("R10.16", f"{cls.name}.remove|takes-back-an-unregistered-creation", ok, rm.where,
+                "what a creation command made without telling the program is removed plainly" if ok else
+                f"{cls.name}.{unregistered[0]} makes the path without registering it with the program, but {cls.name}.remove only asks the program to "
+                "remove it: the program does not know the path, nothing is removed, and the rollback of a failed composite change leaves the stray "
+                "folder in the tree", function=rm.qualname)
+        if registers(rm):
+            for c in calls_in(rm.node):
+                if is_self_attr(c.func, "_do") and c.args and isinstance(c.args[0], ast.List):
+                    words = [e.value for e in c.args[0].elts if isinstance(e, ast.Constant) and isinstance(e.value, str)]
+                    if cls.name == "GITCommands" and words[:1] == ["rm"]:
+                        n += 1
+                        missing = [why for opts, why in _GIT_RM_NEEDS if not (opts & set(words))]
+                        res.add("R10.16", "GITCommands.remove|git-rm-options", not missing, f"{rm.unit.rel}:{c.lineno}",
+                                "`git rm` is given the options without which it refuses what rope has just created" if not missing else
+                                f"GITCommands.remove runs `git {' '.join(words)} <path>`: {'; '.join(missing)} -- the rollback of CreateFile / CreateFolder "
+                                "removes nothing", function=rm.qualname)
+    res.floor("R10.16", "remove commands of the program-running back ends", n, 2)
